@@ -558,6 +558,53 @@ func main() {
 		})
 	}
 
+	// ---- round1.Update: the statements from the first AddWitnessSign to the end (logger calls
+	// dropped) and the nil guard on the random-beacon share
+	var round1Tail []string
+	round1NilGuard := false
+	{
+		f := parsed[filepath.Join(cons, "logical", "round_sign_piece.go")]
+		fd := funcDecl(f, "*round1", "Update")
+		if fd == nil {
+			die("round1.Update not found")
+		}
+		isLog := func(st ast.Stmt) bool {
+			es, ok := st.(*ast.ExprStmt)
+			return ok && strings.HasPrefix(show(es.X), "r.logger.")
+		}
+		var norm func(st ast.Stmt) string
+		norm = func(st ast.Stmt) string {
+			if is, ok := st.(*ast.IfStmt); ok && is.Else == nil && is.Init == nil {
+				var body []string
+				for _, b := range is.Body.List {
+					if !isLog(b) {
+						body = append(body, norm(b))
+					}
+				}
+				return "if " + show(is.Cond) + " { " + strings.Join(body, " ; ") + " }"
+			}
+			return show(st)
+		}
+		start := -1
+		for i, st := range fd.Body.List {
+			t := show(st)
+			if strings.Contains(t, "sig == nil || sig.IsNil()") {
+				round1NilGuard = true
+			}
+			if start < 0 && strings.Contains(t, "r.gSignGenerator.AddWitnessSign(") {
+				start = i
+			}
+		}
+		if start < 0 {
+			die("round1.Update: no call of gSignGenerator.AddWitnessSign")
+		}
+		for _, st := range fd.Body.List[start:] {
+			if !isLog(st) {
+				round1Tail = append(round1Tail, norm(st))
+			}
+		}
+	}
+
 	// ---- write Lean
 	var b strings.Builder
 	b.WriteString("/-! GENERATED by gen/cmd/c13facts from the go-rangers working tree; do not edit.\n")
@@ -621,6 +668,15 @@ func main() {
 		s.WriteString(lq(x))
 	}
 	fmt.Fprintf(&s, "]\n\ndef pathFilesScanned : Nat := %d\n", scanned)
+	s.WriteString("\n/-- round1.Update from the first AddWitnessSign on, logger calls dropped -/\ndef round1UpdateTail : List String := [\n")
+	for i, x := range round1Tail {
+		sep := ","
+		if i == len(round1Tail)-1 {
+			sep = ""
+		}
+		fmt.Fprintf(&s, "  %s%s\n", lq(x), sep)
+	}
+	fmt.Fprintf(&s, "]\n\n/-- round1.Update returns early on `sig == nil || sig.IsNil()` for the random-beacon share -/\ndef round1RandomNilGuard : Bool := %v\n", round1NilGuard)
 	s.WriteString("\nend Rangers.Generated.C13Sites\n")
 	if err := os.WriteFile(filepath.Join(out, "C13Sites.lean"), []byte(s.String()), 0644); err != nil {
 		die("%v", err)
